@@ -70,17 +70,27 @@ def main(ctx):
     corrupt_and_check("build: verbose flag", "build", "message", 20, "TraceBuild", lambda e: e["op"] == "build" and e["res"]["m"]["x"], lambda e: e["res"]["m"]["x"][0].__setitem__("verb", not e["res"]["m"]["x"][0]["verb"]))
     corrupt_and_check("arg: length", "build", "message", 20, "TraceBuild", lambda e: e["op"] == "arg" and e["res"]["valid"] and e["a"]["vari"] == (len(e["a"]["name"]) == 1), bump(["res", "len"]))
     corrupt_and_check("from_us: microseconds", "build", "ts", 5, "TraceBuild", lambda e: e["op"] == "from_us" and e["limbs"][-1] > 0 and len(e["limbs"]) == 3, bump(["res", "us", -1]))
-    corrupt_and_check("real: value", "build", "real", 200, "TraceBuild", lambda e: e["res"]["v"] == "some" and e["prod"]["cls"] == "num" and not e["off"]["neg"] and len(e["res"]["limbs"]) < 6, bump(["res", "limbs", -1]))
+    corrupt_and_check("real: value", "build", "real", 200, "TraceBuild", lambda e: e["res"]["v"] == "some" and e["prod"]["cls"] == "num" and not e["off"]["neg"] and len(e["res"]["limbs"]) < 6 and len(e["prod"]["limbs"]) < 6 and len(e["off"]["limbs"]) < 6, bump(["res", "limbs", -1]))
     corrupt_and_check("htyp: session-id flag", "codes", "bytes", 1, "TraceCodes", lambda e: e["op"] == "htyp" and e["b"] == 0x2d, lambda e: e["res"].__setitem__("wsid", False))
     corrupt_and_check("ti: accepted word refused", "codes", "ti", 0, "TraceCodes", lambda e: e["res"]["v"] == "ok", lambda e: e.__setitem__("res", {"v": "refused"}), ["--shard", "65", "--of", "4096"])
     corrupt_and_check("reader: delivered length", "reader", "blocking", 20, "TraceReader", lambda e: sum(1 for x in e["log"] if x["t"] == "out") >= 1, lambda e: [x for x in e["log"] if x["t"] == "out"][0].__setitem__("k", [x for x in e["log"] if x["t"] == "out"][0]["k"] + 1))
     corrupt_and_check("reader: dropped delivery", "reader", "blocking", 20, "TraceReader", lambda e: sum(1 for x in e["log"] if x["t"] == "out") >= 2, lambda e: e["log"].remove([x for x in e["log"] if x["t"] == "out"][1]))
     corrupt_and_check("pair: async ending", "reader", "pair", 20, "TraceReader", lambda e: True, lambda e: e["alog"][-1].__setitem__("ret", "err" if e["alog"][-1]["ret"] == "eos" else "eos"))
-    corrupt_and_check("stats: one bucket", "stats", "scan", 20, "TraceStats", lambda e: len(e["res"]["visits"]) >= 2, bump(["res", "result", 0, "ecu", 0, 1, 0]))
-    corrupt_and_check("stats: one merge order", "stats", "scan", 20, "TraceStats", lambda e: len(e["res"]["visits"]) >= 2 and len(e["res"]["merged"]) > 5, bump(["res", "merged", 5, "ecu", 0, 1, 1]))
-    corrupt_and_check("stats: visit dropped", "stats", "scan", 20, "TraceStats", lambda e: len(e["res"]["visits"]) >= 2, lambda e: e["res"]["visits"].pop())
+    corrupt_and_check("stats: one bucket", "stats", "scan", 20, "TraceStats", lambda e: e["op"] == "stats" and len(e["res"]["visits"]) >= 2, bump(["res", "result", 0, "ecu", 0, 1, 0]))
+    corrupt_and_check("stats: one merge order", "stats", "scan", 20, "TraceStats", lambda e: e["op"] == "stats" and len(e["res"]["visits"]) >= 2 and len(e["res"]["merged"]) > 5, bump(["res", "merged", 5, "ecu", 0, 1, 1]))
+    corrupt_and_check("stats: visit dropped", "stats", "scan", 20, "TraceStats", lambda e: e["op"] == "stats" and len(e["res"]["visits"]) >= 2, lambda e: e["res"]["visits"].pop())
     corrupt_and_check("fibex: sequence order", "fibex", "models", 30, "TraceFibex", lambda e: e["res"]["v"] == "model" and any(len(f[1]["pdus"]) >= 2 and f[1]["pdus"][0] != f[1]["pdus"][1] for f in e["res"]["frame_map"]),
                       lambda e: [f for f in e["res"]["frame_map"] if len(f[1]["pdus"]) >= 2 and f[1]["pdus"][0] != f[1]["pdus"][1]][0][1]["pdus"].reverse())
+    def dec_pick(e):
+        return any(m["res"]["v"] == "ok" and any(len(a["val"][1]) for a in m["res"]["args"]) for m in e["msgs"])
+
+    def dec_mut(e):
+        m = [m for m in e["msgs"] if m["res"]["v"] == "ok" and any(len(a["val"][1]) for a in m["res"]["args"])][0]
+        a = [a for a in m["res"]["args"] if len(a["val"][1])][0]
+        a["val"][1][0] = (a["val"][1][0] + 1) % 256
+    corrupt_and_check("decode: argument value", "fibex", "decode", 30, "TraceDecode", dec_pick, dec_mut)
+    corrupt_and_check("decode: lookup missed", "fibex", "decode", 30, "TraceDecode", lambda e: any(m["res"]["v"] == "ok" for m in e["msgs"]),
+                      lambda e: [m for m in e["msgs"] if m["res"]["v"] == "ok"][0].__setitem__("res", {"v": "nometa"}))
     corrupt_and_check("fibex: hang", "fibex", "damage", 5, "TraceFibex", lambda e: True, lambda e: e["res"].__setitem__("v", "timeout"))
 
     # a replay case with a falsified expected result must be reported
